@@ -20,6 +20,14 @@ WANT = ("deadlock", "coherent", "lockorder", "null")
 
 def run(tier, seed):
     res = C.Result("C09", tier, seed, level="proof")
+    # every call terminates also without any concurrency: shapes on which a retry loop could make no progress
+    # (equal-slice entries on both sides of a split, cursors and scans with endpoints there, failed storage
+    # operations beyond the number of session slots); a script that does not finish is reported
+    import random
+    from . import seq
+    rs = random.Random(seed + 9)
+    seq.scripts_phase(res, "c09", seq.gen_split_boundary_scripts(rs, tier) + seq.gen_failed_ddl_scripts(rs, tier),
+                      ["res"], "sequential_termination_scripts")
     res.assumptions = ["termination of optimistic retry loops under fair schedules is a liveness property: explored with a "
                        "step budget, not proved", "the rank function is witnessed per run (acyclic lock-order graph), "
                        "not derived from the tree structure"]
